@@ -830,6 +830,10 @@ func init() {
 						}
 					}
 				}
+				if !found && setThroughPointerTable(c, parse, ft.Obj(), f) {
+					r.ok(key, "parseFooter", c.pos(parse.Pos()), "field is read from the file (its address is listed in a table of destinations, each of which is stored a big-endian decode)")
+					continue
+				}
 				if !found && setByBinaryRead(c, parse, ft.Obj(), f) {
 					r.ok(key, "parseFooter", c.pos(parse.Pos()), "field is read from the file (binary.Read into its address, big-endian)")
 					continue
@@ -951,4 +955,60 @@ func setByBinaryRead(c *Ctx, parse *ssa.Function, owner *types.TypeName, f strin
 		}
 	}
 	return false
+}
+
+// setThroughPointerTable: parse puts the address of field f into a table
+// (a field of pointer type of some element struct) and stores, through the
+// pointers loaded from that table field, only file decodes.
+func setThroughPointerTable(c *Ctx, parse *ssa.Function, owner *types.TypeName, f string) bool {
+	// table fields that receive &x.f
+	tbl := map[*types.Var]bool{}
+	for _, b := range parse.Blocks {
+		for _, ins := range b.Instrs {
+			st, ok := ins.(*ssa.Store)
+			if !ok {
+				continue
+			}
+			fa, ok := st.Val.(*ssa.FieldAddr)
+			if !ok {
+				continue
+			}
+			if o, fv := fieldAddrInfo(fa); o == nil || fv == nil || o.Obj() != owner || fv.Name() != f {
+				continue
+			}
+			if dst, ok := st.Addr.(*ssa.FieldAddr); ok {
+				if _, dv := fieldAddrInfo(dst); dv != nil {
+					tbl[dv] = true
+				}
+			}
+		}
+	}
+	if len(tbl) == 0 {
+		return false
+	}
+	n := 0
+	for _, b := range parse.Blocks {
+		for _, ins := range b.Instrs {
+			st, ok := ins.(*ssa.Store)
+			if !ok {
+				continue
+			}
+			ld, ok := st.Addr.(*ssa.UnOp)
+			if !ok || ld.Op != token.MUL {
+				continue
+			}
+			fa, ok := ld.X.(*ssa.FieldAddr)
+			if !ok {
+				continue
+			}
+			if _, dv := fieldAddrInfo(fa); dv == nil || !tbl[dv] {
+				continue
+			}
+			if !isFileDecode(c, st.Val, 0) {
+				return false
+			}
+			n++
+		}
+	}
+	return n > 0
 }
